@@ -93,7 +93,7 @@ CHECKS = {
     ),
     "C07": dict(
         category="fault_enumeration",
-        text="For 20 configurations x 2-3 seeds (Canonical, HamiltonianCanonical, Isobaric, Isotension, GrandCanonical x Ball/Box/Sphere/Translation/Rotation/TranslationRotation, composite operation, masked Anisotropic/Shape/Isotropic deformations, D*2, D+D, D+E, E*2, molecular exchange, Verlet) an uninterrupted run of n steps (4 quick, 8 thorough) writes its restart file into a stream captured after every observer call; for EVERY k in 0..n the captured bytes are loaded the documented way (read_json, Cls.from_dict, fresh calculator) and every remaining step is compared with the uninterrupted run: atoms bitwise, reference energy, accept/reject history, labels, particle counter, generator state, step counter. ForceBias/AdaptiveForceBias: the restart file must be writable.",
+        text="For 20 configurations x 2-3 seeds (Canonical, HamiltonianCanonical, Isobaric, Isotension, GrandCanonical x Ball/Box/Sphere/Translation/Rotation/TranslationRotation, composite operation, masked Anisotropic/Shape/Isotropic deformations, D*2, D+D, D+E, E*2, molecular exchange, Verlet) an uninterrupted run of n steps (6 quick, 10 thorough) writes its restart file into a stream captured after every observer call; for EVERY k in 0..n the captured bytes are loaded the documented way (read_json, Cls.from_dict, fresh calculator) and every remaining step is compared with the uninterrupted run: atoms bitwise, reference energy, accept/reject history, labels, particle counter, generator state, step counter. ForceBias/AdaptiveForceBias: the restart file must be writable.",
         design_ref="4-C07",
         note="Real PCG64, fixed seeds. Calculators are re-attached (not serialized), as documented.",
         technique="exhaustive restart-point enumeration (every k of every run) on the implementation, differential against the uninterrupted run",
